@@ -192,3 +192,17 @@ def flush_jobs(tier):
                  witnesses=["end"],
                  bound="ONE read_answers with two frames that both defer a resend (TC on UDP); the resends are contract stubs "
                        "returning any status")]
+
+def destroy_jobs(tier):
+    J = []
+    shapes = [("", None), ("u", None), ("ut", None)] + ([("u", "t"), ("ut", "u")] if tier != "quick" else [])
+    for s0, s1 in shapes:
+        J.append(dict(name="destroy_%s_%s" % (s0 or "none", s1 if s1 is not None else "x"), harness="../machine/destroy_step.c",
+                      defines=['-DSHAPE0="%s"' % s0, '-DSHAPE1="%s"' % (s1 or ""), "-DNS=%d" % (2 if s1 is not None else 1)],
+                      real=LIB + ["src/lib/ares_destroy.c"], support=SUP, unwind=8, backend="cadical", timeout=1800, mem_gb=8,
+                      replace=["ares_requeue_query"], replace_with=["rq_stub.c"], unwindset=UW + ["ares_send_query:2", "ares_requeue_query:5"],
+                      witnesses=["end"],
+                      bound="ONE ares_destroy: server0=[%s] server1=[%s] (u=UDP t=TCP), each connection idle or carrying a request, "
+                            "0/1 request not in flight, stay-open on/off, pending reload thread handle or none"
+                            % (s0, s1 if s1 is not None else "-")))
+    return J
